@@ -742,6 +742,18 @@ func (w *World) finish() {
 	}
 }
 
+// OpenPairsOf returns the connections involving peer a that corebgp has not
+// closed on its side.
+func (w *World) OpenPairsOf(a netip.Addr) []*RConn {
+	var out []*RConn
+	for _, c := range w.Conns() {
+		if c.PeerIP == a && !c.Refused && c.Pair.Closed(0) == 0 {
+			out = append(out, c)
+		}
+	}
+	return out
+}
+
 // CheckConnsClosed asserts that corebgp closed its end of every connection it
 // was ever given (used after Close has returned).
 func (w *World) CheckConnsClosed(after string) {
@@ -756,6 +768,18 @@ func (w *World) CheckConnsClosed(after string) {
 			w.Violate("connection %d (%v <-> %v) is still open on corebgp's side after %s returned", p.ID, p.End(0).LocalAddr(), p.End(0).RemoteAddr(), after)
 		}
 	}
+}
+
+// CorebgpGoroutinesExceptServe is CorebgpGoroutines without the goroutines
+// that belong to Server.Serve itself (used after DeletePeer on a live server).
+func CorebgpGoroutinesExceptServe() []string {
+	var out []string
+	for _, g := range CorebgpGoroutines() {
+		if !strings.Contains(g, "corebgp.(*Server).Serve") {
+			out = append(out, g)
+		}
+	}
+	return out
 }
 
 // CorebgpGoroutines returns the stacks of all goroutines that have a frame in
